@@ -24,6 +24,7 @@ type PropSpec struct {
 	Rules       []RuleRef
 	RuleDocs    map[string]string
 	Assumptions []string
+	Files       []string
 }
 
 func Main(args []string) int {
@@ -92,7 +93,7 @@ func Main(args []string) int {
 			t0 = start
 		}
 		spec := specs[id]
-		c := &C{P: p, Prop: id, Tier: *tier, Counts: map[string]int{}, Mins: map[string]int{}, known: known, seen: map[string]bool{}}
+		c := &C{P: p, Prop: id, Tier: *tier, scope: spec.Files, Counts: map[string]int{}, Mins: map[string]int{}, known: known, seen: map[string]bool{}}
 		c.excepted = exceptionTable()
 		BuildFacts(c)
 		c.Count("packages_loaded", p.NumPkgs)
